@@ -32,7 +32,7 @@ def tok (s : State) (c : TaskId) : Nat :=
   s.ready.count c + s.incoming.count c + s.hubTasks.count c + sTokC s.s c + hTokC s.h c + stTok s.tasks c + spawnTok s.fs c
 
 def cpPc : HubPc → Bool
-  | .pong true | .empty true | .get true => true
+  | .pong cp | .empty cp | .get cp => cp
   | _ => false
 
 def cpS : SPc → Bool
@@ -95,5 +95,195 @@ theorem running_st_fresh {s : State} (hS : InvS s) {st : Nat} {tg : TaskId} {r :
   cases r with
   | false => rfl
   | true => have := hS.dead st tg hl; simp only [occ] at this; omega
+
+/-- nothing refers to an id that has not been allocated yet -/
+theorem tok_fresh {s : State} (hK : InvK s) :
+    s.incoming.count s.tasks.length = 0 ∧ s.hubTasks.count s.tasks.length = 0 ∧ hTokC s.h s.tasks.length = 0 ∧
+    stTok s.tasks s.tasks.length = 0 ∧ spawnTok s.fs s.tasks.length = 0 := by
+  refine ⟨?_, ?_, ?_, ?_, ?_⟩
+  · apply List.count_eq_zero.mpr; intro hm; have := tagAt_lt (hK.inc _ hm); omega
+  · apply List.count_eq_zero.mpr; intro hm; have := tagAt_lt (hK.hubT _ hm); omega
+  · have hh := hK.href
+    cases hpc : s.h with
+    | hub q =>
+      cases q with
+      | ret x p =>
+        simp only [hpc, hOk, hubOk] at hh
+        cases p <;> simp only [hTokC] <;> first | rfl | (split <;> first | rfl | (rename_i e; subst e; have := tagAt_lt hh; omega))
+      | _ => rfl
+    | _ => rfl
+  · apply List.countP_eq_zero.mpr
+    intro k hk hp
+    have e : k = Kind.st s.tasks.length false := by simpa using hp
+    subst e
+    obtain ⟨j, hj⟩ := List.mem_iff_getElem?.mp hk
+    obtain ⟨n, hn, _⟩ := hK.stTg j _ _ hj
+    have := tagAt_lt hn; omega
+  · apply List.countP_eq_zero.mpr
+    intro g hg hp
+    have e : g.pc = FPc.spawn .cl s.tasks.length := by simpa using hp
+    obtain ⟨j, hj⟩ := List.mem_iff_getElem?.mp hg
+    have hok := hK.fref j g hj
+    simp only [e, fOk] at hok
+    have := tagAt_lt hok; omega
+
+theorem stepS_L_one {s s' : State} (hK : InvK s) (hC : InvC s) (hS : InvS s) (hW : InvW s) (h : InvL s)
+    (hs : stepS s = some s') : ∀ c, s'.cltTask = some c → tok s' c = 1 + sigAdj s'.s s'.tasks c := by
+  have hsok := hK.sref
+  obtain ⟨hone, hcps, hcph⟩ := h
+  s_cases hs s hpc
+  all_goals simp only [hpc, sOk, hubOk] at hsok
+  all_goals intro c hc
+  all_goals first
+    | (have h1 := hone c hc
+       simp only [tok, sTokC, sigAdj, hpc] at h1 ⊢
+       first
+         | exact h1
+         | (rw [stTok_set_same c (by assumption) (fun e => Kind.noConfusion e) (fun e => Kind.noConfusion e)]; exact h1))
+    -- a task is popped from `ready`
+    | (have h1 := hone c hc
+       have hp := pop_count c (by assumption)
+       simp only [tok, sTokC, sigAdj, hpc] at h1 ⊢
+       rw [hp] at h1
+       try rw [stTok_set_same c (by assumption) (fun e => Kind.noConfusion e) (fun e => Kind.noConfusion e)]
+       first
+         | (have e := eq_clt hC hc (tagAt_clt (by assumption)); subst e; simp only [↓reduceIte] at h1 ⊢; omega)
+         | (have e := ne_clt hK hc (tagAt_user (by assumption)) (by decide); simp only [if_neg e] at h1 ⊢; omega)
+         | (have e := ne_clt hK hc (tagAt_st (by assumption)) (by decide); simp only [if_neg e] at h1 ⊢; omega)
+         | (have e := ne_clt hK hc (tagAt_sync (by assumption)) (by decide); simp only [if_neg e] at h1 ⊢; omega))
+    -- a task that is not the CallLaterTask is appended to `ready`
+    | (have h1 := hone c hc
+       simp only [tok, sTokC, sigAdj, hpc, count_append_self] at h1 ⊢
+       have e := ne_clt hK hc hsok.2 (by decide)
+       simp only [beq_false_of_ne e, b2n, Bool.false_eq_true, ↓reduceIte] at h1 ⊢
+       omega)
+    | (have h1 := hone c hc
+       simp only [tok, sTokC, sigAdj, hpc, count_append_self] at h1 ⊢
+       have e := hsok.elim (fun h => ne_clt hK hc h (by decide)) (fun h => ne_clt hK hc h (by decide))
+       simp only [beq_false_of_ne e, b2n, Bool.false_eq_true, ↓reduceIte] at h1 ⊢
+       omega)
+    -- the CallLaterTask moves: executed -> `_incoming`; started by cooperative code; returned by the hub runner
+    | (have h1 := hone c hc
+       have e := eq_clt hC hc hsok
+       subst e
+       simp only [tok, sTokC, sigAdj, hpc, count_append_self, ↓reduceIte, beq_self_eq_true, b2n] at h1 ⊢
+       first
+         | omega
+         | (have := count_pos_of_mem (by assumption : _ ∈ s.ready); omega))
+    | (have h1 := hone c hc
+       have e := eq_clt hC hc hsok.2
+       subst e
+       simp only [tok, sTokC, sigAdj, hpc, count_append_self, ↓reduceIte, beq_self_eq_true, b2n] at h1 ⊢
+       first
+         | omega
+         | (have := count_pos_of_mem (by assumption : _ ∈ s.ready); omega))
+    | skip
+  · -- select reports the CallLaterTask's pinger: the hub runner takes it out of its table
+    rename_i hq
+    have h1 := hone c hc
+    have e := Option.some.inj ((cltReadable_some hq).symm.trans hc)
+    subst e
+    have hm := count_erase_mem (cltReadable_mem hq)
+    simp only [tok, sTokC, sigAdj, hpc, ↓reduceIte] at h1 ⊢
+    omega
+  · -- … the same after the `_incoming` queue was emptied
+    rename_i cp _ hcp _ c' hq
+    have h1 := hone c hc
+    have e := Option.some.inj (hq.symm.trans hc)
+    subst e
+    obtain ⟨c0, hc0, hm0⟩ := hcps (by rw [hpc]; exact hcp)
+    have e0 := Option.some.inj (hc0.symm.trans hc)
+    subst e0
+    have hm := count_erase_mem hm0
+    simp only [tok, sTokC, sigAdj, hpc, ↓reduceIte] at h1 ⊢
+    omega
+  · -- `assert task not in tasks` would fail: impossible, the task is in one place only
+    rename_i cp _ y rest hq hm
+    exfalso
+    have hcl : s.cltTask = some c := hc
+    have h1 := hone c hcl
+    have e := eq_clt hC hcl (hK.inc y (head_mem hq))
+    subst e
+    have := count_pos_of_mem (head_mem hq)
+    have := count_pos_of_mem hm
+    simp only [tok] at h1
+    have : sigAdj s.s s.tasks y = 0 := by simp only [sigAdj, hpc]
+    omega
+  · -- the CallLaterTask moves from `_incoming` into the hub's table
+    rename_i cp _ y rest hq hm
+    have h1 := hone c hc
+    have e := eq_clt hC hc (hK.inc y (head_mem hq))
+    subst e
+    have hp := pop_count y hq
+    simp only [tok, sTokC, sigAdj, hpc, count_append_self, ↓reduceIte, beq_self_eq_true, b2n] at h1 ⊢
+    rw [hp] at h1
+    simp only [↓reduceIte] at h1
+    omega
+  -- the slices of ScheduleTasks
+  all_goals try (
+    rename_i st _ tg r hq hm
+    have hr := running_st_fresh hS (by simp only [sRunsST, hpc, ↓reduceIte]) hq
+    subst hr
+    have h1 := hone c hc
+    obtain ⟨e1, e2⟩ := stTok_set hq (Kind.st tg true) c
+    have f1 : (Kind.st tg true == Kind.st c false) = false := by simp
+    simp only [tok, sTokC, sigAdj, hpc, hq] at h1 ⊢
+    by_cases e : tg = c
+    · subst e
+      simp only [beq_self_eq_true, b2n, ↓reduceIte, f1, Bool.false_eq_true] at e1 e2
+      first
+        | (have := count_pos_of_mem (by assumption : tg ∈ s.ready); omega)
+        | (simp only [↓reduceIte] at h1 ⊢; omega)
+    · have f2 : (Kind.st tg false == Kind.st c false) = false := by simp [e]
+      have f3 : ¬ (some (Kind.st tg false) = some (Kind.st c false)) := by simp [e]
+      simp only [f1, f2, b2n, Bool.false_eq_true, ↓reduceIte, f3] at e1 h1 ⊢
+      omega)
+  · -- the ScheduleTask puts its target at the head of `ready`
+    rename_i st _ tg r hq
+    have hr := running_st_fresh hS (by simp only [sRunsST, hpc, ↓reduceIte]) hq
+    subst hr
+    have h1 := hone c hc
+    simp only [tok, sTokC, sigAdj, hpc, hq, List.count_cons] at h1 ⊢
+    by_cases e : tg = c
+    · subst e; simp only [beq_self_eq_true, ↓reduceIte] at h1 ⊢; omega
+    · have f2 : (tg == c) = false := by simp [e]
+      have f3 : ¬ (some (Kind.st tg false) = some (Kind.st c false)) := by simp [e]
+      simp only [f2, f3, Bool.false_eq_true, ↓reduceIte] at h1 ⊢; omega
+  · -- `self._callLaterTask = CallLaterTask()` on the scheduler thread: a brand-new id, held by this thread
+    have e : s.tasks.length = c := Option.some.inj hc
+    subst e
+    obtain ⟨f1, f2, f3, f4, f5⟩ := tok_fresh hK
+    have f0 := count_fresh hK
+    simp only [tok, sTokC, sigAdj, stTok_append, ↓reduceIte, f0, f1, f2, f3, f4, f5]
+    have : (Kind.clt false == Kind.st s.tasks.length false) = false := by simp
+    simp [this, b2n]
+
+theorem stepS_L {s s' : State} (hK : InvK s) (hC : InvC s) (hS : InvS s) (hW : InvW s) (h : InvL s)
+    (hs : stepS s = some s') : InvL s' := by
+  refine ⟨stepS_L_one hK hC hS hW h hs, ?_, ?_⟩
+  · obtain ⟨hone, hcps, hcph⟩ := h
+    s_cases hs s hpc
+    all_goals intro hq
+    all_goals first
+      | (simp only [cpS, cpPc] at hq; done)
+      | (cases hq; done)
+      | (have hq' : cpS s.s = true := by rw [hpc]; exact hq
+         obtain ⟨c, hc, hm⟩ := hcps hq'
+         first | exact ⟨c, hc, hm⟩ | exact ⟨c, hc, List.mem_append_left _ hm⟩)
+      | (simp only [cpS, cpPc] at hq
+         rcases hr : cltReadable s with _ | c
+         · rw [hr] at hq; simp at hq
+         · exact ⟨c, cltReadable_some hr, cltReadable_mem hr⟩)
+  · obtain ⟨hone, hcps, hcph⟩ := h
+    have hoff : ∀ q, s.s = .hub q → cpH s.h = false := by
+      intro q hq
+      cases ht : s.threaded with
+      | true => exact absurd hq (hW.thr ht q)
+      | false => rw [(hW.inl ht).1]; rfl
+    s_cases hs s hpc
+    all_goals first
+      | exact hcph
+      | (intro hq; have := hoff _ hpc; rw [this] at hq; cases hq)
+      | (intro hq; obtain ⟨c, hc, _⟩ := hcph hq; rw [hC.crS ⟨_, hpc⟩] at hc; cases hc)
 
 end Pox.Handoff
